@@ -2390,7 +2390,12 @@ def preprocess_file(
     pp_defines = []
     pp_stack = []
     pp_stack_group = []
-    defs_tmp = pp_defs.copy()
+    # Values given in a configuration file may be numbers or booleans
+    # (`"pp_defs": {"N": 4}`), macro bodies are text
+    defs_tmp = {
+        key: val if isinstance(val, (str, tuple)) else str(val)
+        for key, val in pp_defs.items()
+    }
     def_regexes = {}
     output_file = []
     def_cont_name = None
